@@ -1,7 +1,9 @@
 package binding
 
 import (
+	"bytes"
 	"encoding/xml"
+	"errors"
 	"io"
 	"net/http"
 	"strings"
@@ -27,9 +29,32 @@ func (XMLBinder) BindBytes(bts []byte, ptr any) error {
 }
 
 func decodeXML(r io.Reader, obj any) error {
-	err := xml.NewDecoder(r).Decode(obj)
+	dec := xml.NewDecoder(r)
+	err := dec.Decode(obj)
 	if err != nil {
 		return err
+	}
+
+	// the body is one XML document: only white space, comments and processing instructions
+	// may follow the root element
+	for {
+		tok, err := dec.Token()
+		if err == io.EOF {
+			break
+		}
+		if err != nil {
+			return err
+		}
+
+		switch x := tok.(type) {
+		case xml.CharData:
+			if len(bytes.TrimSpace(x)) > 0 {
+				return errors.New("invalid XML data: unexpected content after the root element")
+			}
+		case xml.Comment, xml.ProcInst, xml.Directive:
+		default:
+			return errors.New("invalid XML data: unexpected content after the root element")
+		}
 	}
 
 	return Validate(obj)
